@@ -38,6 +38,7 @@ type vVFS struct {
 func newVFS() *vVFS { return &vVFS{failAt: -1, crashAt: -1} }
 
 func (v *vVFS) step(op string) error {
+	vmodel.Boundary() // a file-system call is a lower-layer boundary
 	if v.crashed {
 		// deferred clean-up code still runs in the harness (a panic models the crash), but the
 		// process is dead: its calls have no effect
@@ -223,6 +224,9 @@ func (f *vWFile) Sync() error {
 func (v *vVFS) TempFile(dir, prefix string) (WritableFile, error) {
 	if err := v.step("tempfile"); err != nil {
 		return nil, err
+	}
+	if !v.isDir(dir) {
+		return nil, os.ErrNotExist
 	}
 	v.tmpSeq++
 	n := &vNode{path: dir + "/" + prefix + string(rune('0'+v.tmpSeq))}
